@@ -88,13 +88,14 @@ macro_rules! impl_range_exclusive_match_arms {
           (Value::[<$ty:camel>](from), Value::[<$ty:camel>](to))  => {
             let from_val = *from.borrow();
             let to_val = *to.borrow();
-            let diff = to_val - from_val;
-            if diff < $ty::zero() {
+            // compare first: `to - from` overflows the signed kinds for spans wider than the kind (-100<i8>..100<i8>)
+            if to_val < from_val {
               return Err(MechError::new(
                 EmptyRangeError{},
                 None
               ).with_compiler_loc());
             }
+            let diff = range_span!(from_val, to_val, $ty);
             let size = range_exclusive_size_to_usize!(diff, $ty);
             let mut vec = vec![from_val; size];
             match size {
